@@ -28,6 +28,8 @@
 
 using namespace amgcl;
 using vf::Csr; using vf::J; using vf::Rng; using vf::Case;
+// set-valued observations are comma lists: keep commas out of the tokens
+static std::string tok(std::string s) { for (auto &ch : s) if (ch == ',') ch = ';'; return s; }
 typedef backend::builtin<double> B;
 typedef amg<B, coarsening::smoothed_aggregation, relaxation::spai0> AMG;
 typedef amg<B, runtime::coarsening::wrapper, runtime::relaxation::wrapper> RAMG;
@@ -68,13 +70,13 @@ static void poison_heap(unsigned char byte) {
 // Build P from the sorted matrix twice (different heap garbage) and from the shuffled matrix; `make` is a
 // callable (matrix) -> unique_ptr<P>.  Row-order dependence is asserted only against a reproducible reference.
 template <class Make> void roworder(Case &c, const std::string &nm, const Csr<double> &A, const Csr<double> &Ash, Make make, Rng &r) {
-    vf::obs_add("classes_seen", nm); uint64_t seed = r.next();
+    vf::obs_add("classes_seen", tok(nm)); uint64_t seed = r.next();
     decltype(make(A)) p1, p1b, p2; std::vector<double> B1, B1b, B2;
     try { poison_heap(0x00); p1 = make(A); B1 = action(*p1, A.n, seed); poison_heap(0xFF); p1b = make(A); B1b = action(*p1b, A.n, seed); }
-    catch (const std::exception &e) { vf::obs_sum("sorted_reference_threw"); vf::obs_add("sorted_reference_threw_for", nm); return; }   // class / generator limitation, unrelated to row order
+    catch (const std::exception &e) { vf::obs_sum("sorted_reference_threw"); vf::obs_add("sorted_reference_threw_for", tok(nm)); return; }   // class / generator limitation, unrelated to row order
     Diff d0 = action_diff(B1, B1b);
-    if (!d0.finite || !(d0.scale > 0)) { vf::obs_sum("degenerate_sorted_reference"); vf::obs_add("degenerate_sorted_reference_for", nm); return; }
-    if (!(d0.rel <= 1e-12)) { vf::obs_sum("reference_not_reproducible"); vf::obs_add("reference_not_reproducible_for", nm); vf::obs_max("max_rel_difference_of_two_builds_from_identical_input", d0.rel); return; }
+    if (!d0.finite || !(d0.scale > 0)) { vf::obs_sum("degenerate_sorted_reference"); vf::obs_add("degenerate_sorted_reference_for", tok(nm)); return; }
+    if (!(d0.rel <= 1e-12)) { vf::obs_sum("reference_not_reproducible"); vf::obs_add("reference_not_reproducible_for", tok(nm)); vf::obs_max("max_rel_difference_of_two_builds_from_identical_input", d0.rel); return; }
     try { poison_heap(0xFF); p2 = make(Ash); } catch (const std::exception &e) { c.fail(nm + ":exception-on-unsorted-rows", std::string("constructor threw on a valid matrix with shuffled rows: ") + e.what()); return; }
     try { B2 = action(*p2, A.n, seed); } catch (const std::exception &e) { c.fail(nm + ":apply-exception", e.what()); return; }
     Diff d = action_diff(B1, B2);
@@ -200,9 +202,9 @@ static Csr<double> permuted(const Csr<double> &A, uint64_t t) {
 static uint64_t perm_count(const Csr<double> &A) { uint64_t t = 1; for (size_t i = 0; i < A.n; ++i) { size_t L = A.ptr[i + 1] - A.ptr[i]; for (size_t k = 2; k <= L; ++k) t *= k; } return t; }
 
 template <class Make> void exhaustive_class(Case &c, const std::string &nm, const Csr<double> &A, const std::vector<Csr<double>> &perms, Make make) {
-    vf::obs_add("classes_seen_exhaustive", nm); decltype(make(A)) p1, p1b; std::vector<double> B1, B1b;
-    try { poison_heap(0x00); p1 = make(A); B1 = action(*p1, A.n, 1); poison_heap(0xFF); p1b = make(A); B1b = action(*p1b, A.n, 1); } catch (const std::exception &) { vf::obs_sum("sorted_reference_threw"); vf::obs_add("sorted_reference_threw_for", nm); return; }
-    Diff d0 = action_diff(B1, B1b); if (!d0.finite || !(d0.scale > 0) || !(d0.rel <= 1e-12)) { vf::obs_sum("reference_not_reproducible"); vf::obs_add("reference_not_reproducible_for", nm); return; }
+    vf::obs_add("classes_seen_exhaustive", tok(nm)); decltype(make(A)) p1, p1b; std::vector<double> B1, B1b;
+    try { poison_heap(0x00); p1 = make(A); B1 = action(*p1, A.n, 1); poison_heap(0xFF); p1b = make(A); B1b = action(*p1b, A.n, 1); } catch (const std::exception &) { vf::obs_sum("sorted_reference_threw"); vf::obs_add("sorted_reference_threw_for", tok(nm)); return; }
+    Diff d0 = action_diff(B1, B1b); if (!d0.finite || !(d0.scale > 0) || !(d0.rel <= 1e-12)) { vf::obs_sum("reference_not_reproducible"); vf::obs_add("reference_not_reproducible_for", tok(nm)); return; }
     size_t bad = 0, thrown = 0; double worst = 0; std::string what;
     for (auto &Ash : perms) { try { auto p2 = make(Ash); Diff d = action_diff(B1, action(*p2, A.n, 1)); if (!(d.rel <= 1e-12)) ++bad; worst = std::max(worst, std::isfinite(d.rel) ? d.rel : 1e300); } catch (const std::exception &e) { ++thrown; what = e.what(); } vf::obs_sum("actions_compared"); vf::obs_sum("permutations_enumerated"); }
     c.check(thrown == 0, nm + ":exception-on-unsorted-rows", "constructor threw on a valid matrix with permuted row entries: " + what, J().n("permutations_throwing", thrown).n("of", perms.size()));
